@@ -109,7 +109,7 @@ def cases(rng, tier, worker, nworkers):
     for i, c in enumerate(directed()):
         if i % nworkers == worker:
             yield c
-    n = 2000 if tier == 'quick' else 60000 // nworkers
+    n = 1400 if tier == 'quick' else 60000 // nworkers
     for _ in range(n):
         yield R.gen_case(rng, PROP, max_ops=10)
 
